@@ -21,6 +21,7 @@ type SpyBackend struct {
 	hand int            // hand ordinal
 	Fail map[int]int    // ordinal -> how many times the call at that ordinal fails before it is let through
 	FailKind map[string]int // kind -> remaining failures
+	Late     bool       // injected failures of player actions strike AFTER the native backend has done the work (the answer is lost)
 	Strength []int      // per game index; nil = leave the shuffled deck alone
 	TieAll   bool
 	Opts     *pokerface.GameOptions
@@ -68,6 +69,12 @@ func (s *SpyBackend) step(kind string, in *pokerface.GameState, f func() (*poker
 	s.mu.Unlock()
 	ind := gsDigest(in)
 	if fail {
+		s.mu.Lock()
+		late := s.Late
+		s.mu.Unlock()
+		if late && kind != "create" && kind != "readyall" && kind != "ante" && kind != "blinds" && kind != "next" {
+			f() // the backend worked on the state it was handed; whatever it did must not show
+		}
 		if cb != nil {
 			cb(kind, ord, false, ind, "", nil, nil, amt)
 		}
